@@ -53,6 +53,60 @@ def receiver_is(f, call, d):
     return base is not None and base['k'] == 'DeclRefExpr' and base.get('d') == d
 
 
+def map_clear_by_mode(prog, f, cont_decl, modes):
+    """SerializeMapImpl interpreted once per load mode (the parameter of type MapLoadMode is bound to the enumerator, helpers are inlined):
+    is clear() applied to the target on every path / on no path?  Returns None when it is 'iff Clean', else a description."""
+    from bsv.dtab import TOP, Interp, Model, Sym
+
+    class M(Model):
+        def __init__(self):
+            self.key = None
+
+        def initial_store(self, it, key):
+            return TOP
+
+        def compare(self, it, fr, n, op, a, b):
+            return Sym(('GUARD', 'CMP@%s' % fr.f.loc(n)))
+
+        def construct(self, it, fr, n, depth):
+            for a in n.get('c', ()):
+                it.ev(fr, a, depth)
+            return TOP
+
+        def primitive(self, it, fr, n, callee, depth):
+            obj, args = it.call_args(fr, n)
+            if obj is not None and callee['n'] == 'clear' and it.lvalue(fr, obj, depth) == self.key:
+                it.act('CLEAR')
+                return TOP
+            if callee.get('repo') and not callee.get('cls') and callee['q'].startswith('BitSerializer::Detail::') and callee['id'] in it.prog.funcs \
+                    and len(list(it.prog.funcs[callee['id']].walk())) < 400 and callee['n'] not in ('Serialize', 'SerializeObject', 'SerializeArray'):
+                return NotImplemented          # small helpers of the loader are inlined
+            for a in args:
+                it.ev(fr, a, depth)
+            return TOP
+    mode_param = [p for p in f.params if 'MapLoadMode' in f.tu['types'][p['t']]]
+    if len(mode_param) != 1:
+        raise AnalysisBroken('R18.1b: SerializeMapImpl has no parameter of type MapLoadMode (%s)' % f.id[:100])
+    for name, val in sorted(modes['items'].items()):
+        model = M()
+        it = Interp(prog, model, max_depth=2, max_paths=200)
+
+        def init(it_, fr):
+            for p in f.params:
+                fr.env[p['d']] = TOP
+            fr.env[mode_param[0]['d']] = val
+            model.key = ('L', id(fr), cont_decl)
+        cleared = set()
+        for p in it.run(f, init):
+            if p.outcome[0] == 'THROW':
+                continue
+            cleared.add(any(a[0] == 'CLEAR' for a in p.actions))
+        want = {True} if name == 'Clean' else {False}
+        if cleared != want:
+            return 'in mode %s the target is %s' % (name, 'cleared' if True in cleared and name != 'Clean' else 'not cleared on every path')
+    return None
+
+
 def run(prog, rep):
     rep.rule('R18.1a', 'sequence loaders: on every normal path the last container operation is resize(counter) and #element loads == #++counter', floor=20)
     rep.rule('R18.1b', 'set / multimap loaders: clear() precedes every insertion; map loader: clear() iff mode == Clean', floor=6)
@@ -78,6 +132,9 @@ def run(prog, rep):
             kind = ptype.replace('const ', '').split('<')[0].replace('std::', '')
             return d, f.params[0]['d'], kind
         return None
+    modes_enum = prog.enums.get('BitSerializer::MapLoadMode')
+    if modes_enum is None:
+        raise AnalysisBroken('anchor vanished: enum MapLoadMode')
     seq = [('BitSerializer::Detail::SerializeContainer', None), ('BitSerializer::SerializeArray', 'std::vector<bool'), ('BitSerializer::SerializeArray', 'std::forward_list<')]
     n_seq = 0
     for f in sorted(prog.funcs.values(), key=lambda x: x.id):
@@ -148,32 +205,12 @@ def run(prog, rep):
         if pq == 'BitSerializer::Detail::SerializeMapImpl':
             d, nm = container_param(f)
             rep.touch(f)
-            ok = False
-            for n in live_walk(f):
-                if n['k'] == 'IfStmt' and not n.get('cx'):
-                    c = child(n, 'cond')
-                    names = set(x.get('n') for x in f.walk(c) if x['k'] == 'DeclRefExpr')
-                    consts = set(x.get('q', '').rsplit('::', 1)[-1] for x in f.walk(c) if x['k'] == 'DeclRefExpr' and x.get('dk') == 'EnumConstant')
-                    eq = any(x['k'] == 'BinaryOperator' and x.get('op') == '==' for x in f.walk(c))
-                    clears = any(x['k'] == 'CXXMemberCallExpr' and receiver_is(f, x, d) and f.callee(x)['n'] == 'clear' for x in f.walk(child(n, 'then')))
-                    if 'mapLoadMode' in names and 'Clean' in consts and eq and clears:
-                        ok = True
-            uncond = False
-            for n in live_walk(f):
-                if n['k'] == 'CXXMemberCallExpr' and receiver_is(f, n, d) and f.callee(n)['n'] == 'clear':
-                    p = f.parent(n)
-                    inside_if = False
-                    while p is not None:
-                        if p['k'] == 'IfStmt' and not p.get('cx'):
-                            inside_if = True
-                        p = f.parent(p)
-                    if not inside_if:
-                        uncond = True
-            if ok and not uncond:
+            verdict = map_clear_by_mode(prog, f, d, modes_enum)
+            if verdict is None:
                 rep.ok('R18.1b', pq + '|' + f.sym.get('targs', '')[:60], sample={'loader': pq, 'clear': 'iff mapLoadMode == Clean'})
             else:
-                rep.finding('R18.1b', pq, f.loc(), 'SerializeMapImpl must clear the target exactly when mapLoadMode == MapLoadMode::Clean '
-                            '(conditional clear found: %s, unconditional clear: %s)' % (ok, uncond), {'instantiation': f.id}, func=f.id)
+                rep.finding('R18.1b', pq, f.loc(), 'SerializeMapImpl must clear the target exactly when the load mode is MapLoadMode::Clean: %s' % verdict,
+                            {'instantiation': f.id}, func=f.id)
 
         # ------------------------------------------------------------ R18.1c wrappers
         if pq == 'BitSerializer::Serialize' and f.params:
